@@ -359,4 +359,5 @@ class GaussianDiscrete(DPMechanism):
                 f_0 = f_mid
                 guess_0 = guess_mid
 
-        return (guess_0 + guess_1) / 2
+        # Return the end of the bracket that lies on the private side of the root (objective <= 0), not the midpoint
+        return guess_0 if f_0 <= 0 else guess_1
